@@ -92,14 +92,14 @@ func (s *vNodeSrv) handleNodePoints(msg *nats.Msg) {
 	id := strings.Split(msg.Subject, ".")[1]
 	pts, err := data.PbDecodePoints(msg.Data)
 	if err != nil {
-		_ = s.nc.Publish(msg.Reply, []byte("decode error"))
+		_ = msg.Respond([]byte("decode error"))
 		return
 	}
 	np := s.nodePoints(id, true)
 	np.pts = vMergePoints(np.pts, pts)
 	s.writes = append(s.writes, msg.Subject)
 	if msg.Reply != "" {
-		_ = s.nc.Publish(msg.Reply, nil)
+		_ = msg.Respond(nil)
 	}
 }
 
@@ -110,7 +110,7 @@ func (s *vNodeSrv) handleEdgePoints(msg *nats.Msg) {
 	id, parent := ch[1], ch[2]
 	pts, err := data.PbDecodePoints(msg.Data)
 	if err != nil {
-		_ = s.nc.Publish(msg.Reply, []byte("decode error"))
+		_ = msg.Respond([]byte("decode error"))
 		return
 	}
 	typ := ""
@@ -131,7 +131,7 @@ func (s *vNodeSrv) handleEdgePoints(msg *nats.Msg) {
 	if idx < 0 {
 		if typ == "" {
 			if msg.Reply != "" {
-				_ = s.nc.Publish(msg.Reply, []byte("Node type must be sent with new edges"))
+				_ = msg.Respond([]byte("Node type must be sent with new edges"))
 			}
 			return
 		}
@@ -141,7 +141,7 @@ func (s *vNodeSrv) handleEdgePoints(msg *nats.Msg) {
 	s.nodes[idx].EdgePoints = vMergePoints(s.nodes[idx].EdgePoints, store)
 	s.writes = append(s.writes, msg.Subject)
 	if msg.Reply != "" {
-		_ = s.nc.Publish(msg.Reply, nil)
+		_ = msg.Respond(nil)
 	}
 }
 
@@ -177,6 +177,7 @@ func (s *vNodeSrv) query(parent, id, typ string, includeDel bool) data.Nodes {
 			n.Points = append(data.Points{}, np.pts...)
 		}
 		n.EdgePoints = append(data.Points{}, n.EdgePoints...)
+		n.Hash = s.hash(n.Parent, n.ID)
 		out = append(out, n)
 	}
 	return out
@@ -205,5 +206,26 @@ func (s *vNodeSrv) handle(msg *nats.Msg) {
 	resp := &pb.NodesRequest{}
 	resp.Nodes, _ = out.ToPbNodes()
 	b, _ := proto.Marshal(resp)
-	_ = s.nc.Publish(msg.Reply, b)
+	_ = msg.Respond(b)
+}
+
+// hash is the Merkle hash of a placement by the documented definition.
+func (s *vNodeSrv) hash(parent, id string) uint32 {
+	var h uint32
+	if np := s.nodePoints(id, false); np != nil {
+		for _, p := range np.pts {
+			h ^= p.CRC()
+		}
+	}
+	for _, n := range s.nodes {
+		if n.ID == id && n.Parent == parent {
+			for _, p := range n.EdgePoints {
+				h ^= p.CRC()
+			}
+		}
+		if n.Parent == id {
+			h ^= s.hash(id, n.ID)
+		}
+	}
+	return h
 }
